@@ -46,6 +46,12 @@ def _sl_cfg(path, impl):
                 "CHECK_DEADLOCK FALSE\n" % impl)
 
 
+def _hs_cfg(path, impl, quick=True):
+    with open(path, "w") as f:
+        f.write("SPECIFICATION Spec\nCONSTANTS\n  Objs = {%s}\n  Cfgs = {1, 2%s}\n  Seeds = {1, 2}\n  Lens = {1, 2}\n  Impl = \"%s\"\n"
+                "INVARIANTS UsesCurrent PrefixOK\nCHECK_DEADLOCK FALSE\n" % ("1" if quick else "1, 2", "" if quick else ", 3", impl))
+
+
 def _sig(rj):
     ev = rj.event or {}
     act = ev.get("e")
@@ -53,6 +59,8 @@ def _sig(rj):
         act = "Call:" + str((ev.get("c") or {}).get("op"))
     if act in ("Pair", "RandC"):
         act = "%s:%s" % (act, ev.get("s"))
+    if act == "Sample":
+        act = "Sample:n=%s" % ("1" if ev.get("n") == 1 else ">1")
     if act == "Inv":
         act = "Inv:" + str(ev.get("op"))
     return {"action": act, "invariant": rj.invariant or "step"}
@@ -63,6 +71,8 @@ def _module_for(path):
         for ln in f:
             if '"e":"Call"' in ln:
                 return "SamplingTrace"
+            if '"e":"Sample"' in ln:
+                return "HmmSampleTrace"
             if '"e":"Pair"' in ln or '"e":"Inv"' in ln or '"e":"RandC"' in ln:
                 return "ScaleLawTrace"
     return "Rcont2Trace"
@@ -143,6 +153,24 @@ def _selftest_cases():
            {"e": "Inv", "op": "multinom", "cum": [1, 1, 4], "r": [2, 0, 2], "tie": [False, False, False], "out": [2, 0, 2], "seed": 1},
            {"e": "RandC", "s": "dd.beta", "dom": True, "rt": True, "skip": False, "seed": 1}]
     cases.append(("law-good", "ScaleLawTrace", law, True))
+    hs = [{"e": "Reset"}, {"e": "New", "o": 0, "k": "full", "ns": 3},
+          {"e": "Sample", "o": 0, "n": 1, "seed": 7, "out": [2], "lo": [2], "hi": [2], "wpos": [True]},
+          {"e": "Get", "o": 0, "which": "eq", "same": True},
+          {"e": "Sample", "o": 0, "n": 3, "seed": 7, "out": [2, 0, 1], "lo": [2, 0, 1], "hi": [2, 0, 1], "wpos": [True, True, True]},
+          {"e": "Mut", "o": 0, "what": "setP", "r": "ok", "twin": "ok"},
+          {"e": "Sample", "o": 0, "n": 1, "seed": 7, "out": [0], "lo": [0], "hi": [0], "wpos": [True]}]
+    cases.append(("hmm-good", "HmmSampleTrace", hs, True))
+    bad = cp(hs)
+    bad[2]["out"] = [0]                             # first state not the one the first uniform selects
+    cases.append(("hmm-first-state-stale", "HmmSampleTrace", bad, False))
+    bad = cp(hs)
+    bad[4]["out"] = [1, 0, 1]
+    bad[4]["lo"] = [1, 0, 1]
+    bad[4]["hi"] = [1, 0, 1]                        # consistent in itself but sample(1) is not its prefix
+    cases.append(("hmm-not-a-prefix", "HmmSampleTrace", bad, False))
+    bad = cp(hs)
+    bad[4]["wpos"] = [True, False, True]            # a zero-probability transition taken
+    cases.append(("hmm-zero-transition", "HmmSampleTrace", bad, False))
     bad = cp(law)
     bad[1]["code"] = 2                              # doubling the mean halves the draw: read as a rate
     cases.append(("law-mean-read-as-rate", "ScaleLawTrace", bad, False))
@@ -186,6 +214,14 @@ def run(tier, seed):
         cfg = os.path.join(wd, "sl-%s.cfg" % impl)
         _sl_cfg(cfg, impl)
         jobs.append(("control2", impl, "", (lambda cfg=cfg: vc.tlc(SPEC, "ScaleLaw", cfg, workers=1, timeout=900, extra=("-noGenerateSpecTE",)))))
+    cfg = os.path.join(wd, "hs-refresh.cfg")
+    _hs_cfg(cfg, "refresh", quick)
+    jobs.append(("model", "HmmSample/refresh", "Objs={%s} Cfgs=1..%d Seeds={1,2} Lens={1,2} kinds full/auto, Impl=refresh" % ("1" if quick else "1,2", 2 if quick else 3),
+                 (lambda cfg=cfg: vc.model_check(SPEC, "HmmSample", cfg, workers=3, coverage=True, timeout=1800, heap="4g"))))
+    for impl in ("lazyFirst", "autoEqStale"):
+        cfg = os.path.join(wd, "hs-%s.cfg" % impl)
+        _hs_cfg(cfg, impl)
+        jobs.append(("control3", impl, "", (lambda cfg=cfg: vc.tlc(SPEC, "HmmSample", cfg, workers=1, timeout=900, extra=("-noGenerateSpecTE",)))))
     for name, module, lines, accepted in _selftest_cases():
         jobs.append(("self", name, "", (lambda name=name, module=module, lines=lines, accepted=accepted: _expect(wd, name, module, lines, accepted))))
     with ThreadPoolExecutor(max_workers=8) as ex:
@@ -203,6 +239,10 @@ def run(tier, seed):
             if r.invariant != "IndexSafe":
                 raise vc.MachineryError("negative control: Rcont2 with StartRule=cast should violate IndexSafe, got %s\n%s" % (r.invariant, r.out[-2000:]))
             ck.extra["negative_control"] = "Rcont2 with the mis-parenthesised start value (StartRule=cast, MaxTot=3): TLC reports IndexSafe violated, as expected"
+        elif kind == "control3":
+            if r.invariant != "UsesCurrent":
+                raise vc.MachineryError("negative control: HmmSample with Impl=%s should violate UsesCurrent, got %s\n%s" % (name, r.invariant, r.out[-2000:]))
+            ck.extra["negative_control_hmm_" + name] = "HmmSample with Impl=%s: TLC reports UsesCurrent violated, as expected" % name
         elif kind == "control2":
             if r.invariant != "LawHolds":
                 raise vc.MachineryError("negative control: ScaleLaw with Impl=%s should violate LawHolds, got %s\n%s" % (name, r.invariant, r.out[-2000:]))
@@ -225,11 +265,12 @@ def run(tier, seed):
     runs += [("tables-rand", ["--mode", "tables-rand", "--n", 400 if quick else 5000, "--maxtot", 200], "Rcont2Trace"),
              ("sampling-exh", ["--mode", "sampling-exh", "--seeds", 16], "SamplingTrace"),
              ("sampling-rand", ["--mode", "sampling-rand", "--n", 300 if quick else 4000], "SamplingTrace"),
-             ("laws", ["--mode", "laws", "--seeds", 16], "ScaleLawTrace")]
+             ("laws", ["--mode", "laws", "--seeds", 16], "ScaleLawTrace"),
+             ("hmm", ["--mode", "hmm", "--n", 600 if quick else 6000], "HmmSampleTrace")]
     for name, args, module in runs:
         tr = os.path.join(wd, "trace-%s.ndjson" % name)
         s = vc.run_driver(exe, args, tr, timeout=3000)
-        _validate(ck, tr, module, sample=2 if name in ("tables-rand", "sampling-rand", "laws") else 0)
+        _validate(ck, tr, module, sample=2 if name in ("tables-rand", "sampling-rand", "laws", "hmm") else 0)
         vc.log("C18: %s: %s scenarios, %s events validated at %.0fs" % (name, s.get("scenarios"), s.get("events"), time.time() - ck.t0))
         ck.extra["scenarios_" + name] = s.get("scenarios", 0)
         os.remove(tr)
@@ -240,7 +281,8 @@ def run(tier, seed):
                "sizes 0..12 x sample sizes 0..14 x {plain, weighted} x {with, without replacement} x 16 seeds + pickOne variants, "
                "random runs of all call kinds re-played under the same seed; argument conventions: pairs of draws under one seed "
                "differing in one argument (factors 1/4, 1/2, 2, 4, shifts) for 4 RandomTools samplers and 5 distribution classes x 16 seeds, "
-               "inverse-cdf picks with the rank of the uniform, randC domain + quantile round trip; non-trivial = scenario with at least one draw"
+               "inverse-cdf picks with the rank of the uniform, randC domain + quantile round trip; hidden-state paths: random histories "
+               "(mutations, getters, sample(1..5) under 3 seeds per history) on Full/AutoCorrelation matrices with 1..4 states; non-trivial = scenario with at least one draw"
                % (("6 x 16 seeds", 3) if quick else ("10 x 16 seeds, 11..12 x 4 seeds", 4)))
     ck.distinct = ck.traces
     ck.assumptions = ["TLC 1.8.0; CommunityModules Json",
